@@ -8,6 +8,8 @@ leaf-wise comparison with every old agent (faithful copy per C01, target re-sync
 
 from __future__ import annotations
 
+import os
+
 import numpy as np
 
 from vf.core import CaseTimeout, Recorder
@@ -154,6 +156,11 @@ def run_case(case):
     all_matched = True
     informative = False
     for gen in range(case["gens"]):
+        if case["seed"] % 2 and len(pop) > 1:
+            # populations are lists the caller may have re-ordered (ranked by fitness, re-assembled from checkpoints ...):
+            # nothing in the statement depends on where an agent sits in the list
+            pop = [pop[int(j)] for j in rng.permutation(len(pop))]
+            rec.hit("shuffled_populations")
         _assign_fitness(pop, case["pattern"], rng, gen)
         old_leaves = [walk.agent_leaves(a) for a in pop]
         old_fp = [walk.fingerprint_map(L) for L in old_leaves]
@@ -281,5 +288,60 @@ def run_case(case):
                         second=a["second"],
                     )
         pop = new_pop
+    if algo not in zoo.MULTI and case["seed"] % 3 != 2:
+        try:
+            _wiring_check(rec, case, pop, ts, rng)
+        except CaseTimeout:
+            raise
+        except Exception as e:
+            rec.crash(e, "wiring", "tournament_selection_and_mutation workload", algo=algo)
     rec.nontrivial = case["pop"] >= 2 and informative and all_matched
     return rec.result()
+
+
+def _wiring_check(rec, case, pop, ts, rng):
+    """tournament_selection_and_mutation (the helper that wires selection and mutation in every training loop) with
+    save_elite=True: the file holds a faithful copy of a fittest agent of the population that went in - whatever
+    happens to the members of the new generation afterwards (every one of them gets a parameter mutation here)."""
+    import contextlib
+    import io
+    import shutil
+    import tempfile
+
+    from agilerl.utils.utils import tournament_selection_and_mutation
+
+    from vf import agentops, walk, zoo
+
+    _assign_fitness(pop, case["pattern"], rng, 99)
+    old_leaves = [walk.agent_leaves(a) for a in pop]
+    means = [_mean_fit(a, case["eval_loop"]) for a in pop]
+    best = max(means)
+    elite_ok = {i for i, m in enumerate(means) if m == best}
+    m = agentops.make_mutations("param", seed=case["seed"] % 100000)
+    tmp = tempfile.mkdtemp(prefix="vf_c05_")
+    try:
+        path = os.path.join(tmp, "elite.pt")
+        agentops.seed_all(case["seed"] + 99)
+        with contextlib.redirect_stdout(io.StringIO()):
+            tournament_selection_and_mutation(pop, ts, m, "c05-env", algo=case["algo"], elite_path=path, save_elite=True)
+        rec.hit("wiring_checks")
+        if not os.path.exists(path):
+            rec.violate("wiring", "elite_file_missing", "tournament_selection_and_mutation", algo=case["algo"])
+            return
+        saved = type(zoo.unwrap(pop[0])).load(path)
+        L = walk.agent_leaves(saved)
+        parents = set()
+        for j, LO in enumerate(old_leaves):
+            # DQN's target is not part of any checkpoint (known finding of C07): not the wiring's business
+            extra = ("actor_target", "target_params") if case["algo"] == "DQN" else ()
+            d, _ = agentops.compare_copy(LO, L, saved, allow_target_resync=True, ignore=("_index", "index", "/lr_attr") + extra)
+            if not d:
+                parents.add(j)
+        if not parents:
+            rec.violate("wiring", "saved_elite_is_not_a_faithful_copy_of_any_agent_of_the_population_that_went_in",
+                        "tournament_selection_and_mutation", algo=case["algo"], elitism=case["elitism"])
+        elif not (parents & elite_ok):
+            rec.violate("wiring", "saved_elite_is_not_a_fittest_agent", "tournament_selection_and_mutation", algo=case["algo"],
+                        copy_of=sorted(parents), fittest=sorted(elite_ok), elitism=case["elitism"])
+    finally:
+        shutil.rmtree(tmp, ignore_errors=True)
